@@ -18,37 +18,51 @@ Proof.
   apply apply_skip_is_select.
 Qed.
 
+Lemma nest_hoist_is_select o sl k s' : nest_hoist_sort o sl k = Ok s' → is_select s' = true.
+Proof.
+  unfold nest_hoist_sort. intros H.
+  match type of H with (if ?c then _ else _) = _ => destruct c end; [discriminate|].
+  destruct (apply_skip _ k); cbn [rbind] in H; [|discriminate].
+  destruct (finish_default o _); cbn [rbind] in H; [|discriminate].
+  eapply apply_skip_is_select; eassumption.
+Qed.
+
+Ltac sel_done H :=
+  first [ discriminate H
+        | eapply apply_skip_is_select; exact H
+        | eapply nest_unary_is_select; exact H
+        | eapply nest_hoist_is_select; exact H
+        | (injection H as <-; reflexivity) ].
+
 Lemma append_unary_sel_is_select : ∀ s o s', append_unary_sel o s = Ok s' → is_select s' = true.
 Proof.
   intros s o s' H. destruct s as [| | | | |sl skip tgt]; try discriminate.
   cbn [append_unary_sel] in H.
-  destruct o as [tag e| |cs|p|a b|ts|].
-  - destruct (is_chain skip || _); [eapply nest_unary_is_select; eassumption|].
-    destruct (finish_apply _ skip); cbn [rbind] in H; [|discriminate].
-    destruct (has_proj sl); eapply apply_skip_is_select; eassumption.
-  - destruct (has_dedup sl); [injection H as <-; reflexivity|].
-    destruct (has_slice sl); eapply apply_skip_is_select; eassumption.
-  - destruct (has_sort sl && _ && _).
-    { destruct (has_slice sl); [eapply apply_skip_is_select; eassumption|discriminate]. }
-    destruct (has_dedup sl).
-    + destruct (apply_skip _ skip); cbn [rbind] in H; [|discriminate]. eapply apply_skip_is_select; eassumption.
-    + destruct skip as [| |[|] l r| | |]; try (eapply apply_skip_is_select; eassumption; fail).
-      repeat match type of H with
-             | rbind ?x _ = _ => destruct x; cbn [rbind] in H; [|discriminate]
-             end.
-      eapply apply_skip_is_select; eassumption.
-  - destruct (has_slice sl); [eapply nest_unary_is_select; eassumption|].
-    destruct (is_chain skip); [eapply nest_unary_is_select; eassumption|].
-    destruct (finish_apply _ skip); cbn [rbind] in H; [|discriminate]. eapply apply_skip_is_select; eassumption.
-  - destruct (slice_then _ _ _ _); cbn [rbind] in H; [|discriminate]. eapply apply_skip_is_select; eassumption.
-  - destruct (has_slice sl); eapply apply_skip_is_select; eassumption.
-  - injection H as <-. reflexivity.
+  destruct o as [tag e| |cs|p|a b|ts|];
+    repeat (first [ sel_done H
+                  | match type of H with
+                    | rbind ?x _ = _ => destruct x; cbn [rbind] in H
+                    | (if ?c then _ else _) = _ => destruct c
+                    | match ?x with _ => _ end = _ => destruct x
+                    end ]).
 Qed.
 
-Lemma append_binary_sel_is_select b l r s :
-  is_select l = true → is_select r = true → append_binary_sel b l r = Ok s → is_select s = true.
+Lemma select_rows_is_select cf p t s :
+  (∀ x c, cf x = Ok c → is_select c = true) → is_select t = true ∨ ekind_of (engine_of t) = KSql →
+  select_rows cf p t = Ok s → is_select s = true ∨ (s = t) ∨ ekind_of (engine_of t) = KIter.
 Proof.
-  unfold append_binary_sel. intros Hl Hr H.
+  intros Hcf Ht H. unfold select_rows in H.
+  destruct (as_trivial p) as [[|]|]; try (injection H as <-; auto);
+    (destruct (begin_apply _ _); cbn [rbind] in H; [|discriminate];
+     destruct (ekind_of (engine_of t)); [auto|];
+     destruct (cf t); cbn [rbind] in H; [|discriminate];
+     left; eapply append_unary_sel_is_select; eassumption).
+Qed.
+
+Lemma append_binary_sel_with_is_select cf b l r s :
+  is_select l = true → is_select r = true → append_binary_sel_with cf b l r = Ok s → is_select s = true.
+Proof.
+  unfold append_binary_sel_with. intros Hl Hr H.
   destruct (order_loss l); [discriminate|]. destruct (order_loss r); [discriminate|].
   destruct b as [|p c|il].
   - repeat match type of H with
@@ -57,23 +71,31 @@ Proof.
     eapply apply_skip_is_select; eassumption.
   - destruct (strip l), (strip r).
     repeat match type of H with context [if ?c then _ else _] => destruct c end;
-      (destruct (join_finish _ _ _ _); cbn [rbind] in H; [|discriminate]; eapply apply_skip_is_select; eassumption).
+      (destruct (join_finish _ _ _ _ _); cbn [rbind] in H; [|discriminate]; eapply apply_skip_is_select; eassumption).
   - injection H as <-. destruct il; auto.
 Qed.
 
-Theorem conform_is_select : ∀ t c, conform t = Ok c → is_select c = true.
+Lemma append_binary_sel_is_select b l r s :
+  is_select l = true → is_select r = true → append_binary_sel b l r = Ok s → is_select s = true.
+Proof. apply append_binary_sel_with_is_select. Qed.
+
+Theorem conform_n_is_select : ∀ n t c, conform_n n t = Ok c → is_select c = true.
 Proof.
-  induction t as [n e cs mn mx|o t IH|b l IHl r IHr|n t IH|d t IH|sl sk _ t _]; intros c H; cbn [conform] in H;
+  intros n. destruct n as [|n]; cbn [conform_n].
+  all: induction t as [nm e cs mn mx|o t IH|b l IHl r IHr|nm t IH|d t IH|sl sk _ t _]; intros c H; cbn in H;
     unfold select_of in H.
-  - eapply apply_skip_is_select; eassumption.
-  - destruct (conform t); cbn [rbind] in H; [|discriminate]. eapply append_unary_sel_is_select; eassumption.
-  - destruct b; (destruct (conform l) as [cl|] eqn:El; cbn [rbind] in H; [|discriminate];
-                 destruct (conform r) as [cr|] eqn:Er; cbn [rbind] in H; [|discriminate];
-                 eapply append_binary_sel_is_select; [| |eassumption]; eauto).
-  - eapply apply_skip_is_select; eassumption.
-  - eapply apply_skip_is_select; eassumption.
-  - injection H as <-. reflexivity.
+  all: try (eapply apply_skip_is_select; eassumption).
+  all: try (injection H as <-; reflexivity).
+  all: try (match type of H with rbind ?x _ = _ => destruct x eqn:Ex end; cbn [rbind] in H; [|discriminate];
+            eapply append_unary_sel_is_select; eassumption).
+  all: destruct b;
+    (match type of H with rbind ?x _ = _ => destruct x as [cl|] eqn:El end; cbn [rbind] in H; [|discriminate];
+     match type of H with rbind ?x _ = _ => destruct x as [cr|] eqn:Er end; cbn [rbind] in H; [|discriminate];
+     eapply append_binary_sel_with_is_select; [| |eassumption]; eauto).
 Qed.
+
+Theorem conform_is_select : ∀ t c, conform t = Ok c → is_select c = true.
+Proof. intros t c. apply conform_n_is_select. Qed.
 
 (* conforming an already conformed tree returns it unchanged *)
 Theorem conform_idempotent t c : conform t = Ok c → conform c = Ok c.
